@@ -8,6 +8,8 @@ package simkernel
 
 import (
 	"encoding/binary"
+	"fmt"
+	"os"
 	"sync"
 	"syscall"
 
@@ -48,6 +50,8 @@ type Sim struct {
 	NClose   int
 	CloseErr error
 	SendErr  error
+	// WrapRecvErr: 0 = receive errors are bare errnos, 1 = *os.SyscallError, 2 = fmt.Errorf("%w")
+	WrapRecvErr int
 	// SendErrFn, when set, decides per Send call (counted from 0, refused ones included) whether the
 	// transport refuses it.
 	SendErrFn  func(nth int) error
@@ -59,6 +63,18 @@ type Sim struct {
 }
 
 var _ libaudit.NetlinkSendReceiver = (*Sim)(nil)
+
+// wrap returns the receive error the way the configured transport reports it: the bare errno, an
+// *os.SyscallError around it, or a %w-wrapped error (a NetlinkSendReceiver may do any of these).
+func (s *Sim) wrap(e syscall.Errno) error {
+	switch s.WrapRecvErr {
+	case 1:
+		return &os.SyscallError{Syscall: "recvfrom", Err: e}
+	case 2:
+		return fmt.Errorf("netlink receive failed: %w", e)
+	}
+	return e
+}
 
 // New returns a simulator whose first request gets sequence number startSeq.
 func New(startSeq uint32) *Sim {
@@ -99,12 +115,12 @@ func (s *Sim) Receive(nonBlocking bool, p libaudit.NetlinkParser) ([]syscall.Net
 	s.NRecv++
 	if len(s.Queue) == 0 {
 		s.NEmpty++
-		return nil, syscall.EAGAIN
+		return nil, s.wrap(syscall.EAGAIN)
 	}
 	st := s.Queue[0]
 	s.Queue = s.Queue[1:]
 	if st.Err != 0 {
-		return nil, st.Err
+		return nil, s.wrap(st.Err)
 	}
 	// the one receive buffer is reused: everything handed out earlier is overwritten first
 	s.stamp += 0x35
